@@ -746,6 +746,13 @@ pub fn explore_history(spec: &HistSpec, vios: &mut Vec<Violation>, stats: &mut S
         if let Some(h) = &res.hung {
             return Err(Machinery(format!("a managed thread did not park within the timeout: {} | history [{}]", h, shist_short(&spec.hist))));
         }
+        if !res.unmanaged_fs.is_empty() {
+            return Err(Machinery(format!(
+                "a thread the scheduler does not control (started by the code under test) changed the scratch directory: {:?}; its interleavings cannot be explored | history [{}]",
+                res.unmanaged_fs,
+                shist_short(&spec.hist)
+            )));
+        }
         if let Some(d) = &dfs.divergence {
             if spec.lock_window {
                 // lock-window runs depend on a kernel-blocked thread being noticed in
@@ -1624,6 +1631,7 @@ pub enum Sym {
     Abig,
     Ahuge,
     Agiant,
+    Amega,
     T,
     Pfirst,
     Plast,
@@ -1654,6 +1662,7 @@ pub fn instantiate(sym: Sym, m: &RefLog, outstanding_flushes: usize, waited: usi
         Sym::Abig => w(Op::Append(vec![((term, next), payload((term, next), 2))])),
         Sym::Ahuge => w(Op::Append(vec![((term, next), payload((term, next), 3))])),
         Sym::Agiant => w(Op::Append(vec![((term, next), payload((term, next), 4))])),
+        Sym::Amega => w(Op::Append(vec![((term, next), payload((term, next), 5))])),
         Sym::T => {
             let l = last?;
             if m.entries.contains_key(&l.1) {
